@@ -238,6 +238,26 @@ def _once(case, acc, tree, labels):
                 raise Violation("findall-vs-preorderiter", "with callbacks that depend on each other (first %d matches) %s.findall returns %s, PreOrderIter yields %s" % (limit, func.__module__, labels.labels(got), labels.labels(want)))
     acc.tag("interdependent_callback_comparisons", 6)
 
+    # a predicate may be any callable - also a CLASS whose instances carry the verdict as their truth value (bool itself, a
+    # small 'Verdict(node)' class): it is called with the node, like any other predicate
+    class Verdict:
+        def __init__(self, node):
+            self.keep = id(node) not in hide_ids
+
+        def __bool__(self):
+            return self.keep
+
+    class Cut(Verdict):
+        def __init__(self, node):
+            self.keep = id(node) in stop_ids
+
+    for kwargs_ in ({"filter_": Verdict}, {"filter_": bool}, {"filter_": Verdict, "stop": Cut}, {"stop": Cut}):
+        want = tuple(anytree.PreOrderIter(start, maxlevel=maxlevel, **kwargs_))
+        for func in (search.findall, cachedsearch.findall):
+            got = func(start, maxlevel=maxlevel, **kwargs_)
+            if not refs.same_seq(got, want):
+                raise Violation("findall-vs-preorderiter", "with classes as predicates (%s) %s.findall returns %s, PreOrderIter yields %s" % (sorted(kwargs_), func.__module__, labels.labels(got), labels.labels(want)))
+
     # a callback that fails with TypeError on its second call only: cachedsearch gives the same result OR ERROR as search
     def flaky():
         calls = [0]
